@@ -100,10 +100,15 @@ class SFTPFile(BufferedFile):
             # mode defers them): a write the server refused must not be lost
             while len(self._reqs):
                 req = self._reqs.popleft()
+                if req not in self.sftp._expecting:
+                    # answered while some other response was waited for;
+                    # a refusal was saved by _async_response
+                    continue
                 t, msg = self.sftp._read_response(req)
                 if t != CMD_STATUS:
                     raise SFTPError("Expected status")
                 # convert_status already called
+            self._check_exception()
         try:
             if async_:
                 # GC'd file handle could be called from an arbitrary thread
@@ -201,8 +206,10 @@ class SFTPFile(BufferedFile):
     def _write(self, data):
         # may write less than requested if it would exceed max packet size
         chunk = min(len(data), self.MAX_REQUEST_SIZE)
+        # registered under this file: a status that arrives while some other
+        # response is waited for is handed to _async_response, not dropped
         sftp_async_request = self.sftp._async_request(
-            type(None),
+            self,
             CMD_WRITE,
             self.handle,
             int64(self._realpos),
@@ -214,6 +221,9 @@ class SFTPFile(BufferedFile):
         ):
             while len(self._reqs):
                 req = self._reqs.popleft()
+                if req not in self.sftp._expecting:
+                    # already answered (see _close)
+                    continue
                 t, msg = self.sftp._read_response(req)
                 if t != CMD_STATUS:
                     raise SFTPError("Expected status")
